@@ -1684,17 +1684,22 @@ void tNMEA2000::FindFreeCANMsgIndex(unsigned long PGN, unsigned char Source, uns
   unsigned long OldestMsgTime,CurTime;
   int OldestIndex;
 
-  for (MsgIndex=0, CurTime=OldestMsgTime=N2kMillis(), OldestIndex=MaxN2kCANMsgs;
+  // A slot, which already holds unfinished message of this sender, must be reused even if there is a free slot
+  // before it. Otherwise one sender can reserve several slots and messages of other senders get dropped.
+  for (MsgIndex=0;
        MsgIndex<MaxN2kCANMsgs &&
-       !( N2kCANMsgBuf[MsgIndex].FreeMsg ||
-         ( N2kCANMsgBuf[MsgIndex].N2kMsg.PGN==PGN
-           && N2kCANMsgBuf[MsgIndex].N2kMsg.Source==Source
-           && N2kCANMsgBuf[MsgIndex].N2kMsg.Destination==Destination
+       !( N2kCANMsgBuf[MsgIndex].N2kMsg.PGN==PGN
+          && N2kCANMsgBuf[MsgIndex].N2kMsg.Source==Source
+          && N2kCANMsgBuf[MsgIndex].N2kMsg.Destination==Destination
 #if !defined(N2K_NO_ISO_MULTI_PACKET_SUPPORT)
-           && N2kCANMsgBuf[MsgIndex].N2kMsg.IsTPMessage()==TPMsg
+          && N2kCANMsgBuf[MsgIndex].N2kMsg.IsTPMessage()==TPMsg
 #endif
-         )
         );
+       MsgIndex++);
+  if ( MsgIndex<MaxN2kCANMsgs ) return;
+
+  for (MsgIndex=0, CurTime=OldestMsgTime=N2kMillis(), OldestIndex=MaxN2kCANMsgs;
+       MsgIndex<MaxN2kCANMsgs && !N2kCANMsgBuf[MsgIndex].FreeMsg;
        MsgIndex++) { // Find free message place
     if ( N2kIsTimeBefore(N2kCANMsgBuf[MsgIndex].N2kMsg.MsgTime,OldestMsgTime) ) {
       OldestIndex=MsgIndex;
